@@ -260,6 +260,7 @@ type ObjObs struct {
 	Toks  []int     `json:"toks"` // file content in file order; nil when the file is gone
 	Gone  bool      `json:"gone,omitempty"`
 	Seek  []SeekObs `json:"seek,omitempty"`
+	Size  int64     `json:"size,omitempty"` // stored size in bytes (not compared with the model)
 }
 
 type BranchObs struct {
